@@ -183,21 +183,23 @@ def run_prog_property(ctx, prop_files, gen_case, classes, n_quick, n_thorough, r
     dist = {}
     for (script, meta), a, m in zip(cases, impl, mod):
         mism = [x for x in compare_case(script, a, m) if x["cls"] in classes or x["cls"] == "fault"]
-        if extra_check:
+        is_corpus = bool(meta.get("corpus"))
+        if extra_check and not is_corpus:
             mism += extra_check(script, meta, a, m)
-        k = key_of(meta) if key_of else script
+        k = key_of(meta) if (key_of and not is_corpus) else script
         for dk in (meta.get("dist") or []):
             dist[dk] = dist.get(dk, 0) + 1
         ctx.count(k, nontrivial=not meta.get("trivial", False), sample={"script": script[:300], "impl": a[:200]})
         if mism:
-            sig = classify(script, meta, mism) if classify else None
+            sig = classify(script, meta, mism) if (classify and not is_corpus) else None
             nviol += 1
             if nviol <= 40:
                 ctx.violation("%s_case_%d.txt" % (ctx.prop.lower(), nviol), replay_text(script, variant, mism, exact),
                               "%s (%s)" % (mism[0]["why"], mism[0]["op"][:80]), sig=sig)
     ctx.extra["distribution"] = dist
     ctx.extra["corpus_cases"] = len(corpus)
-    ctx.cov["rule"] = rule
+    pre = ctx.cov.pop("rule_summ", None)
+    ctx.cov["rule"] = rule + ((" || also (model tie): " + pre) if pre else "")
     checker = checker or ("make -C /verif/coq -f Makefile.coq %s; coqc -Q . JLS <each> (Print Assumptions)" % " ".join(f.replace(".v", ".vo") for f in prop_files))
     return vlib.finish(ctx, level, checker, note=note or "correspondence: implementation answers vs extracted spec_of on generated programs")
 
